@@ -16,7 +16,7 @@ LEVEL_NOTE = ("Trusted: Lean kernel (+ standard axioms), the hand-written model 
               "numpy uint64 shift semantics (shift >= 64 gives 0; validated). Windows wider than the array (w > len) and integer "
               "positions outside [0, len) are outside the property's statement and not judged.")
 TECHNIQUE = "Lean 4 proof (Nat bit arithmetic) of model = digits-of-one-number spec; model/implementation correspondence"
-DESIGN_REF = "6.13"
+DESIGN_REF = "7"
 LEAN_MODULES = ["NpsVerif.Props.C13"]
 KERNELS = ()
 RULE = ("cases = bit stride b in {1,2,4,8,16,32} x length (0 .. 3*(64/b)+3, so partial last registers and register-straddling "
